@@ -67,7 +67,11 @@ static const char* next_reply (void)
 static hawk_ooi_t handler (hawk_rtx_t* rtx, hawk_rio_cmd_t cmd, hawk_rio_arg_t* p, void* data, hawk_oow_t size)
 {
 	long cn = callno;
-	const char* r = next_reply();
+	const char* r;
+	/* a case makes a few hundred handler calls at most. an interpreter that goes on calling the handler
+	 * (e.g. NEXT answered 'ok' for ever) is reported as a hang at once instead of after gigabytes of log */
+	if (callno > 5000) { printf("HANG\n"); fflush(stdout); _exit(3); }
+	r = next_reply();
 	hawk_ooi_t ret = 0;
 	hawk_oow_t i;
 
